@@ -129,6 +129,16 @@ func (c *Conn) Close() error {
 	return c.conn.Close()
 }
 
+// CloseWrite shuts down the writing side of the wrapped connection, so that a
+// tunnel can pass on the end of one direction while the other is still in
+// use. A wrapped connection that cannot do that is closed.
+func (c *Conn) CloseWrite() error {
+	if cw, ok := c.conn.(interface{ CloseWrite() error }); ok {
+		return cw.CloseWrite()
+	}
+	return c.Close()
+}
+
 // LocalAddr returns the local network address.
 func (c *Conn) LocalAddr() net.Addr {
 	return c.conn.LocalAddr()
